@@ -405,3 +405,18 @@ V('IDX_getitem_no_normalisation', ['C14'], 'array_.py', "            if key < 0:
 V('TY1_count_isnan_any_value', ['C14'], 'array_.py', "        if isinstance(value, float) and math.isnan(value):", "        if math.isnan(value):", ['TY1'])
 V('D5_join_next_unguarded', ['C20'], 'bits.py', "            try:\n                s._addright(Bits._create_from_bitstype(next(sequence_iter)))\n            except StopIteration:\n                return s", "            s._addright(Bits._create_from_bitstype(next(sequence_iter)))", ['D5'])
 V('D5_float_pack_unguarded', ['C20', 'C18'], 'bitstore_helpers.py', "    try:\n        b = struct.pack(fmt, f)\n    except OverflowError:\n        # If float64 doesn't fit it automatically goes to 'inf'. This reproduces that behaviour for other types.\n        b = struct.pack(fmt, float('inf') if f > 0 else float('-inf'))\n    return BitStore.frombytes(b)", "    b = struct.pack(fmt, f)\n    return BitStore.frombytes(b)", ['D5'])
+S('REF_S_guard_into_validator', ['C03', 'C06', 'C20', 'C16'], 'bitarray_.py', "        if pos < 0:\n            pos += len(self)\n        if not 0 <= pos <= len(self):\n            raise ValueError(\"Invalid insert position.\")\n        self._insert(bs, pos)\n\n    def overwrite",
+  "        pos = self._checked_position(pos)\n        self._insert(bs, pos)\n\n    def _checked_position(self, pos: int) -> int:\n        if pos < 0:\n            pos += len(self)\n        if not 0 <= pos <= len(self):\n            raise ValueError(\"Invalid insert position.\")\n        return pos\n\n    def overwrite")
+S('REF_S_len_property_in_guard', ['C03', 'C20'], 'bitarray_.py', "        if pos < 0 or pos > len(self):\n            raise ValueError(\"Overwrite starts outside boundary of bitstring.\")", "        if pos < 0 or pos > self.len:\n            raise ValueError(\"Overwrite starts outside boundary of bitstring.\")")
+def _validator_refactor(filename, src):
+    if filename == 'bitstream.py':
+        return src.replace("        if pos < 0:\n            pos += len(self)\n        if not 0 <= pos <= len(self):\n            raise ValueError(\"Invalid insert position.\")\n        self._insert(bs, pos)\n        self._pos = pos + len(bs)",
+                           "        pos = self._checked_position(pos)\n        self._insert(bs, pos)\n        self._pos = pos + len(bs)")
+    if filename == 'bitarray_.py':
+        return src.replace("        if pos < 0:\n            pos += len(self)\n        if not 0 <= pos <= len(self):\n            raise ValueError(\"Invalid insert position.\")\n        self._insert(bs, pos)\n\n    def overwrite",
+                           "        pos = self._checked_position(pos)\n        self._insert(bs, pos)\n\n    def _checked_position(self, pos: int) -> int:\n        if pos < 0:\n            pos += len(self)\n        if not 0 <= pos <= len(self):\n            raise ValueError(\"Invalid insert position.\")\n        return pos\n\n    def overwrite")
+    return None
+
+
+S('REF_S_stream_guard_into_validator', ['C06', 'C20', 'C03', 'C16'], '*', pkg_fn=_validator_refactor)
+S('REF_S_elif_chain', ['C07', 'C06'], 'bitstream.py', "        if pos < 0:\n            raise ValueError(\"Bit position cannot be negative.\")\n        if pos > len(self):\n            raise ValueError(\"Cannot seek past the end of the data.\")", "        if pos < 0:\n            raise ValueError(\"Bit position cannot be negative.\")\n        elif pos > len(self):\n            raise ValueError(\"Cannot seek past the end of the data.\")")
